@@ -23,6 +23,12 @@ class NotRational(Exception):
     pass
 
 
+class Undecided(Exception):
+    def __init__(self, cond):
+        super().__init__("undecided If condition")
+        self.cond = cond
+
+
 def _resolve_ifs(t, premises, timeout_ms):
     """replace If-terms whose condition is decided by the premises"""
     cache = {}
@@ -58,7 +64,7 @@ def _resolve_ifs(t, premises, timeout_ms):
             elif d is False:
                 r = rec(b)
             else:
-                raise NotRational("undecided If condition")
+                raise Undecided(c)
         elif e.num_args() == 0:
             r = e
         else:
@@ -71,14 +77,25 @@ def _resolve_ifs(t, premises, timeout_ms):
 
 
 class _Tr:
-    def __init__(self):
+    def __init__(self, solver=None):
         self.atoms = {}  # sexpr -> (sympy symbol, z3 term)
         self.divisors = []  # z3 terms
+        self.solver = solver  # premises loaded: used to merge atoms whose arguments are provably equal
 
     def atom(self, e):
         if e.num_args() > 0:
             e = e.decl()(*[z3.simplify(c) for c in e.children()])
         key = e.sexpr()
+        if key not in self.atoms and self.solver is not None and e.num_args() > 0:
+            for k2, (sym, t2) in self.atoms.items():
+                if t2.num_args() == e.num_args() and t2.decl().eq(e.decl()):
+                    self.solver.push()
+                    self.solver.add(z3.Or(*[a != b for a, b in zip(e.children(), t2.children())]))
+                    same = self.solver.check() == z3.unsat
+                    self.solver.pop()
+                    if same:
+                        self.atoms[key] = (sym, e)
+                        return sym
         if key not in self.atoms:
             self.atoms[key] = (sympy.Symbol(f"a{len(self.atoms)}", real=True), e)
         return self.atoms[key][0]
@@ -119,7 +136,20 @@ class _Tr:
         return self.atom(e)
 
 
-def prove_equalities(premises, claim, timeout_ms=10000):
+def prove_equalities(premises, claim, timeout_ms=10000, depth=0, rules=()):
+    """case-splitting wrapper: an If condition the premises do not decide splits the proof in two"""
+    try:
+        return _prove_equalities(premises, claim, timeout_ms, rules)
+    except Undecided as u:
+        if depth >= 48:
+            return ("unknown", "too many undecided If conditions")
+        r1 = prove_equalities(list(premises) + [u.cond], claim, timeout_ms, depth + 1, rules)
+        if r1[0] != "proved":
+            return r1
+        return prove_equalities(list(premises) + [z3.Not(u.cond)], claim, timeout_ms, depth + 1, rules)
+
+
+def _prove_equalities(premises, claim, timeout_ms=10000, rules=()):
     """claim: an equality between reals or a conjunction of such.  Returns
     ('proved', None) | ('refuted', model_str, assignment) | ('unknown', reason)"""
     eqs = []
@@ -137,14 +167,25 @@ def prove_equalities(premises, claim, timeout_ms=10000):
         split(claim)
         for eq in eqs:
             lhs, rhs = eq.children()
-            lhs = z3.simplify(_resolve_ifs(lhs, premises, timeout_ms), som=False)
-            rhs = z3.simplify(_resolve_ifs(rhs, premises, timeout_ms), som=False)
-            tr = _Tr()
+            lhs = z3.simplify(_unflatten(_resolve_ifs(lhs, premises, timeout_ms), premises, timeout_ms), som=False)
+            rhs = z3.simplify(_unflatten(_resolve_ifs(rhs, premises, timeout_ms), premises, timeout_ms), som=False)
+            lhs, rhs = _apply_function_definitions(lhs, rules), _apply_function_definitions(rhs, rules)
+            defs = _definitional_premises(premises)
+            for _ in range(4 if defs else 0):
+                lhs = z3.simplify(z3.substitute(lhs, *defs), som=False)
+                rhs = z3.simplify(z3.substitute(rhs, *defs), som=False)
+            ms = z3.Solver()
+            ms.set("timeout", timeout_ms)
+            for p in premises:
+                ms.add(p)
+            tr = _Tr(ms)
             d = tr.tr(lhs) - tr.tr(rhs)
             num = sympy.numer(sympy.cancel(sympy.together(d)))
             num = sympy.expand(num)
             if num != 0:
-                wit = _search_counter_model(premises, lhs, rhs, tr, timeout_ms)
+                num = _reduce_modulo_equalities(num, premises, tr)
+            if num != 0:
+                wit = _search_counter_model(premises, lhs, rhs, tr, timeout_ms, only=num.free_symbols)
                 if wit is not None:
                     return ("refuted", wit[0], wit[1])
                 return ("unknown", "normal form is not zero and no counter-model was found by sampling")
@@ -171,12 +212,150 @@ def prove_equalities(premises, claim, timeout_ms=10000):
         return ("unknown", str(e))
 
 
-def _search_counter_model(premises, lhs, rhs, tr, timeout_ms, tries=20):
+def _unflatten(t, premises, timeout_ms):
+    """rewrite unflat_j(flat(a_0..a_n)) -> a_j where the premises give the range guard of the axiom"""
+    from .arrays import INJECTIVE
+
+    if not INJECTIVE:
+        return t
+    inv_of = {}
+    for name, (invs, dims) in INJECTIVE.items():
+        for j, f in enumerate(invs):
+            inv_of[f.name()] = (name, j, dims)
+    s = z3.Solver()
+    s.set("timeout", timeout_ms)
+    for p in premises:
+        s.add(p)
+    cache = {}
+
+    def rec(e):
+        k = e.get_id()
+        if k in cache:
+            return cache[k]
+        if e.num_args() == 0:
+            r = e
+        else:
+            ch = [rec(c) for c in e.children()]
+            r = e.decl()(*ch)
+            nm = e.decl().name()
+            if nm in inv_of and z3.is_app(ch[0]) and ch[0].decl().name() == inv_of[nm][0]:
+                _, j, dims = inv_of[nm]
+                args = ch[0].children()
+                guard = z3.And(*[z3.And(args[m] >= 0, args[m] < dims[m]) for m in range(1, len(args))]) if len(args) > 1 else z3.BoolVal(True)
+                s.push()
+                s.add(z3.Not(guard))
+                ok = s.check() == z3.unsat
+                s.pop()
+                if ok:
+                    r = args[j]
+        cache[k] = r
+        return r
+
+    return rec(t)
+
+
+def _reduce_modulo_equalities(num, premises, tr):
+    """remainder of the numerator modulo the ideal generated by the arithmetic equalities among the
+    premises (zero remainder => the numerator vanishes wherever the premises hold)"""
+    polys = []
+    todo = list(premises)
+    while todo:
+        p = todo.pop()
+        if z3.is_and(p):
+            todo.extend(p.children())
+        elif not z3.is_quantifier(p) and z3.is_eq(p) and z3.is_arith(p.children()[0]):
+            try:
+                a, b = p.children()
+                a, b = _unflatten(a, premises, 3000), _unflatten(b, premises, 3000)
+                e = sympy.numer(sympy.cancel(sympy.together(tr.tr(z3.simplify(a)) - tr.tr(z3.simplify(b)))))
+                e = sympy.expand(e)
+                if e != 0 and e.free_symbols:
+                    polys.append(e)
+            except NotRational:
+                continue
+    if not polys:
+        return num
+    try:
+        syms = sorted(set().union(*[p.free_symbols for p in polys]) | num.free_symbols, key=str)
+        G = sympy.groebner(polys, *syms, order="grevlex")
+        _, rem = sympy.reduced(num, list(G), *syms, order="grevlex")
+        return sympy.expand(rem)
+    except Exception:
+        return num
+
+
+def _apply_function_definitions(t, premises):
+    """premises  ForAll k. f(k) == body(k)  (f uninterpreted) are unfolded at every application of f"""
+    rules = {}
+    for p in premises:
+        if z3.is_quantifier(p) and p.is_forall() and z3.is_eq(p.body()):
+            a, body = p.body().children()
+            if z3.is_app(a) and a.decl().kind() == z3.Z3_OP_UNINTERPRETED and a.num_args() == p.num_vars() and all(z3.is_var(c) for c in a.children()):
+                # de Bruijn index of each argument position
+                rules[a.decl().name()] = ([z3.get_var_index(c) for c in a.children()], body, p.num_vars())
+    if not rules:
+        return t
+    cache = {}
+
+    def rec(e):
+        k = e.get_id()
+        if k in cache:
+            return cache[k]
+        if e.num_args() == 0:
+            r = e
+        else:
+            ch = [rec(c) for c in e.children()]
+            nm = e.decl().name()
+            if nm in rules and e.decl().kind() == z3.Z3_OP_UNINTERPRETED:
+                idxs, body, nv = rules[nm]
+                vals = [None] * nv
+                for pos, vi in enumerate(idxs):
+                    vals[vi] = ch[pos]
+                r = z3.substitute_vars(body, *vals)
+            else:
+                r = e.decl()(*ch)
+        cache[k] = r
+        return r
+
+    return z3.simplify(rec(t), som=False)
+
+
+def _definitional_premises(premises):
+    """premises of the form  atom == expr  (atom an uninterpreted real application, not occurring in
+    expr) are used as rewrite rules before the normal form is computed"""
+    out = []
+    flat = []
+    todo = list(premises)
+    while todo:
+        p = todo.pop()
+        if z3.is_and(p):
+            todo.extend(p.children())
+        else:
+            flat.append(p)
+    for p in flat:
+        if z3.is_quantifier(p):
+            continue
+        if z3.is_eq(p) and z3.is_int(p.children()[0]):
+            p = z3.simplify(p)
+        if z3.is_eq(p):
+            a, e = p.children()
+            if not (z3.is_app(a) and a.decl().kind() == z3.Z3_OP_UNINTERPRETED) and z3.is_app(e) and e.decl().kind() == z3.Z3_OP_UNINTERPRETED:
+                a, e = e, a
+            if z3.is_arith(a) and z3.is_app(a) and a.decl().kind() == z3.Z3_OP_UNINTERPRETED:
+                a = z3.simplify(a)
+                if a.num_args() == 0 and not (z3.is_rational_value(e) or z3.is_int_value(e)):
+                    continue
+                if a.sexpr() not in e.sexpr():
+                    out.append((a, e))
+    return out
+
+
+def _search_counter_model(premises, lhs, rhs, tr, timeout_ms, tries=20, only=None):
     rnd = random.Random(12345)
-    atoms = list(tr.atoms.values())
+    atoms = [v for v in tr.atoms.values() if only is None or v[0] in only]
     for _ in range(tries):
         s = z3.Solver()
-        s.set("timeout", timeout_ms)
+        s.set("timeout", min(timeout_ms, 3000))
         for p in premises:
             s.add(p)
         for _sym, term in atoms:
